@@ -126,7 +126,10 @@ BracketsOf(t) ==
          \* then the other bracketing, then a again - a cached per-object environment, assertion flag or field
          \* thunk that survives extension shows up as a wrong element
          << <<"local", << <<"p", t[1]>>, <<"q", Plus(V("p"), t[2])>>, <<"r", t[3]>> >>,
-              ArrE(<<V("p"), V("q"), V("r"), Plus(V("q"), V("r")), Plus(V("p"), Plus(t[2], V("r"))), V("p"), V("q")>>)>> >>
+              ArrE(<<V("p"), V("q"), V("r"), Plus(V("q"), V("r")), Plus(V("p"), Plus(t[2], V("r"))), V("p"), V("q"),
+                     \* removal from objects whose fields have already been looked into
+                     Std("objectRemoveKey", <<V("p"), KA>>), Plus(Std("objectRemoveKey", <<V("q"), KA>>), V("r")),
+                     Std("objectRemoveKey", <<V("q"), KB>>)>>)>> >>
     [] Mode = "chains4" -> <<Plus(Plus(Plus(t[1], t[2]), t[3]), t[4]), Plus(t[1], Plus(t[2], Plus(t[3], t[4]))),
                              Plus(Plus(t[1], t[2]), Plus(t[3], t[4])), Plus(t[1], Plus(Plus(t[2], t[3]), t[4])),
                              Plus(Plus(t[1], Plus(t[2], t[3])), t[4])>>
